@@ -145,6 +145,8 @@ PROPS["C14"] = dict(level="exploration",
     units=[Unit("c14_epoll", "harness/c14_epoll.cpp", cfg="d17", max_size=120, pin=True, shards=8,
                 quick=(30, 400000), thorough=(480, 20000000)),
            Unit("c14_uring", "harness/c14_uring.cpp", cfg="p17", max_size=80, shards=6,
+                quick=(25, 400000), thorough=(300, 20000000)),
+           Unit("c14_uring_ds", "harness/c14_uring_ds.cpp", cfg="d17", max_size=120, pin=True, shards=8,
                 quick=(25, 400000), thorough=(300, 20000000))],
     assumptions=_DS_ASSUME + ["the kernel side (pipe, eventfd, timerfd, epoll) is real and not under schedule control; epoll_wait is hooked so that the loop thread never sleeps in the kernel while another thread can run",
                               "syscall failures and short transfers are injected at the readv/writev call sites of the library (generated index and errno)"])
